@@ -4,6 +4,7 @@ Command loops of `drv_c01` (core Lean only):
   drv_c01 eval      `<t0,t1,..> <v0,v1,..> | <prefix expression>`        → `ok <type> <value> <v0,v1,..>` | `ub` | `bad`
   drv_c01 seq       `bin <NK> <t1> <t2> <ret>` | `un <NK> <t> <ret>` | `cast <t> <ret>`
                     | `op <NK> <lhs> <node>` | `uop <NK> <t>` | `cell <from> <to>` | `tobool <from>`
+                    | `jcc <cc> <cmp|test> <32|64> <n>` | `cmpz <t> <e|ne> <n>`   (programs with labels and jumps, Model/X86Jump `runJ`)
                                                                              → rendered lines joined by `;;`  | `none`
   drv_c01 x86exec   `<op|uop|cell|tobool spec> | rax rdi rcx rdx` (decimal, unsigned 64-bit)
                                                                              → `ok rax rdi rcx rdx zf sf cf of pf valid` | `fault` | `undecodable`
@@ -14,6 +15,10 @@ Command loops of `drv_c01` (core Lean only):
                     (`compileX`: also `,` `=` `op=` `++` `--` on variables; hidden temporary k at toffk(%rbp);
                      nc = the C11 no-conflict side condition of theorem C01_value_effects holds; pure = `compileE` gives the same code;
                      lay = `layoutOK`: variables and temporaries lie inside the N-byte frame, pairwise disjoint)
+  drv_c01 compilej  `<t0,..> <off0,..> <toff0,..> <N> <c0> | <prefix expression>` → `ok <type> <stack slots> <temporaries> <c1> <nc 0|1> <isx 0|1> <lay 0|1> <line;;…>` | `none`
+                    (Model/C01ExprJ `compileJ`: the full expression type incl. `&&` `||` `?:`; labels numbered from c0 (the value
+                     `count()` returns next), c1 = the counter afterwards; lines are instructions, `label:` and jumps;
+                     isx = `compileX` accepts the expression and gives the same (jump-free) code)
   drv_c01 ptrseq    `<form> <index type> <element size> <offP> <offI> <tmp>`   → `<ins;;…>` | `none`
                     (pointer arithmetic of parse.c new_add / new_sub on a pointer variable at offP(%rbp) and an index (or second
                      pointer) at offI(%rbp): add | sub | diff | addassign | subassign | preinc | predec | postinc | postdec)
@@ -22,9 +27,10 @@ import ChibiVerif.Spec.IntSpec
 import ChibiVerif.Model.X86
 import ChibiVerif.Model.C01Codegen
 import ChibiVerif.Model.C01Expr
+import ChibiVerif.Model.C01ExprJ
 
 namespace ChibiVerif.Driver.C01
-open ChibiVerif.Spec.IntSpec ChibiVerif.Gen.CommonType ChibiVerif.C01Codegen ChibiVerif.Asm
+open ChibiVerif.Spec.IntSpec ChibiVerif.Gen.CommonType ChibiVerif.C01Codegen ChibiVerif.Asm ChibiVerif.X86J
 
 def words (s : String) : List String := (s.trimAscii.toString.splitOn " ").filter (· ≠ "")
 
@@ -145,7 +151,38 @@ def specLines (ws : List String) : Option (List Line) :=
   | ["imm", v] => do some [.ins (ChibiVerif.C01.iMovImm (← v.toInt?))]
   | _ => none
 
+/-- the text of one program line as chibicc prints it (without indentation) -/
+def jiText : JI → String
+  | .ins i => i.render
+  | .lbl l => l.render ++ ":"
+  | .jmp l => "jmp " ++ l.render
+  | .jcc c l => "j" ++ ccSuffix c ++ " " ++ l.render
+
+/-- programs with jumps for the CPU leg:
+    `jcc <cc> <cmp|test> <32|64> <n>`: `cmp/test %edi, %eax; jCC .L.true.n; mov $0, %rcx; jmp .L.end.n; .L.true.n: mov $1, %rcx; .L.end.n:`
+    `cmpz <type> <e|ne> <n>`: `cmp_zero(type); je/jne .L.true.n; mov $0, %rcx; jmp .L.end.n; .L.true.n: mov $1, %rcx; .L.end.n:`
+    (`%rcx` = 1 iff the jump was taken) -/
+def specJ (ws : List String) : Option (List JI) :=
+  let tail (c : X86.CC) (n : Nat) : List JI :=
+    [.jcc c ⟨.true_, n⟩, .ins ⟨"mov", [.i 0, .r "%rcx"]⟩, .jmp ⟨.end_, n⟩, .lbl ⟨.true_, n⟩, .ins ⟨"mov", [.i 1, .r "%rcx"]⟩,
+     .lbl ⟨.end_, n⟩]
+  match ws with
+  | ["jcc", cc, op, w, n] => do
+      let c ← ccOfSuffix? cc
+      let k ← n.toNat?
+      let (a, d) ← (if w = "32" then some ("%eax", "%edi") else if w = "64" then some ("%rax", "%rdi") else none)
+      if op = "cmp" ∨ op = "test" then some (JI.ins ⟨op, [.r d, .r a]⟩ :: tail c k) else none
+  | ["cmpz", t, cc, n] => do
+      let ty ← ITy.ofString? t
+      let c ← (if cc = "e" then some X86.CC.e else if cc = "ne" then some X86.CC.ne else none)
+      let k ← n.toNat?
+      some (J (ChibiVerif.C01.cmpZeroSeq ty) ++ tail c k)
+  | _ => none
+
 def seqLine (line : String) : String :=
+  match specJ (words line) with
+  | some p => ";;".intercalate (p.map jiText)
+  | none =>
   match specLines (words line) with
   | some ls => if ls.isEmpty then "empty" else ";;".intercalate (ls.map Line.render)
   | none => "none"
@@ -164,6 +201,20 @@ def x86Line (line : String) : String :=
   match line.splitOn "|" with
   | [spec, regs] =>
     let ws := words spec
+    match specJ ws, (words regs).map String.toNat? with
+    | some p, (some a :: some d :: some c :: some x :: rest) =>
+      let q : Nat := match rest with | [some q] => q | _ => 0
+      let s0 : X86.State := { regs := fun r => match r with
+                                | .rax => BitVec.ofNat 64 a | .rdi => BitVec.ofNat 64 d
+                                | .rcx => BitVec.ofNat 64 c | .rdx => BitVec.ofNat 64 x | _ => 0#64,
+                              mem := memWith 0x1000 q (fun _ => 0#8) }
+      (match runJ p.length p 0 s0 with
+       | none => "fault"
+       | some s =>
+          s!"ok {(s.get .rax).toNat} {(s.get .rdi).toNat} {(s.get .rcx).toNat} {(s.get .rdx).toNat} " ++
+          s!"{b01 s.zf} {b01 s.sf} {b01 s.cf} {b01 s.of} {b01 s.pf} {b01 s.flagsValid} " ++
+          s!"{(s.read64 0x1000#64).toNat} {(s.get .rsp).toNat}")
+    | _, _ =>
     match specLines ws, (words regs).map String.toNat? with
     | some ls, (some a :: some d :: some c :: some x :: rest) =>
       let q : Nat := match rest with | [some q] => q | _ => 0
@@ -256,6 +307,36 @@ def compileXLine (line : String) : String :=
     | _ => "bad env"
   | _ => "bad line"
 
+def compileJLine (line : String) : String :=
+  match line.splitOn "|" with
+  | [hd, ex] =>
+    match words hd with
+    | [ts, os, tos, ns, cs] =>
+      let tys := (csv ts).map ITy.ofString?
+      let offs := (csv os).map String.toInt?
+      let toffs := (csv tos).map String.toInt?
+      if tys.any Option.isNone || offs.any Option.isNone || toffs.any Option.isNone || tys.length ≠ offs.length then "bad env" else
+      let tl := tys.filterMap id
+      let ol := offs.filterMap id
+      let tol := toffs.filterMap id
+      let toks := words ex
+      match parseE (toks.length + 1) toks, cs.toNat? with
+      | some (e, []), some c0 =>
+        match ChibiVerif.C01.compileJ tl (fun i => ol.getD i 0) (fun k => tol.getD k 0) 0 c0 e with
+        | some (t, code, k, c1) =>
+            let isx := match ChibiVerif.C01.compileX tl (fun i => ol.getD i 0) (fun k => tol.getD k 0) 0 e with
+              | some (t', code', k') => t' == t && J code' == code && k' == k
+              | none => false
+            let lay := match ns.toInt? with
+              | some n => ChibiVerif.C01.layoutOK tl (fun i => ol.getD i 0) (fun k => tol.getD k 0) k n
+              | none => false
+            s!"ok {t.toString} {ChibiVerif.C01.depthJ e} {k} {c1} {b01 (ChibiVerif.C01.noConflict e)} {b01 isx} {b01 lay} " ++
+              (if code.isEmpty then "empty" else ";;".intercalate (code.map jiText))
+        | none => "none"
+      | _, _ => "bad expr"
+    | _ => "bad env"
+  | _ => "bad line"
+
 def ptrSeqLine (line : String) : String :=
   match words line with
   | [form, ti, sz, op, oi, tmp] =>
@@ -296,9 +377,10 @@ def main (args : List String) : IO UInt32 := do
   | "ctype" :: _ => loop stdin ctypeLine
   | "compile" :: _ => loop stdin compileLine
   | "compilex" :: _ => loop stdin compileXLine
+  | "compilej" :: _ => loop stdin compileJLine
   | "ptrseq" :: _ => loop stdin ptrSeqLine
   | _ =>
-    IO.eprintln "usage: drv_c01 eval|seq|x86exec|ctype|compile|compilex|ptrseq"
+    IO.eprintln "usage: drv_c01 eval|seq|x86exec|ctype|compile|compilex|compilej|ptrseq"
     return 2
 
 end ChibiVerif.Driver.C01
